@@ -2,9 +2,10 @@
 //! of the width, histories that grow and shrink the set of bars past the terminal height
 //! (MultiProgress and single standalone bars), plus a boundary sweep of the f64 ceiling of
 //! LineType::wrapped_height against the integer ceiling of the model.
-use verif_harness::sysoracle::run_sys_cases;
 use verif_harness::sysrun::*;
 use verif_harness::*;
+
+const C19_HEADER: &str = "From IndModel Require Import TermCheck.\nFrom Coq Require Import String.\nOpen Scope string_scope.\nOpen Scope N_scope.\n";
 
 /// single standalone bar, multi-line templates that make frames taller than the terminal
 fn gen_single(r: &mut Rng) -> Case {
@@ -296,9 +297,9 @@ fn f64_ceiling_sweep(s: &mut Session, r: &mut Rng, n: u64) {
 
 fn main() {
     let a = args();
-    let mut s = Session::new(&a, "C19", COQ_HEADER, COQ_CASE_TY, COQ_CHECKER);
+    let mut s = Session::new(&a, "C19", C19_HEADER, "c19case", "c19_check");
     s.shard_size = 120;
-    s.rule = "MultiProgress and single-bar histories on terminals W in 1..10, H in 1..6 (and 1x1), 1..6 bars with one- to three-line templates and messages whose widths cluster at multiples of W, adds/removes/finishes/drops that push the frame past the height and back; single standalone bars with random multi-line templates on W in {1,2,3,4,5,7} x H in 1..4; every draw current (gaps >= 1 ms, no refresh limiter); oracle: screen = log ++ the leading bar lines whose accumulated wrapped rows fit H, nothing else; plus a sweep of the f64 ceiling of wrapped_height; plus an oracle-only stream of double-width texts on even widths judged on the vt100 crate; non-trivial = at least 4 ops; distinct = distinct case text".into();
+    s.rule = "MultiProgress and single-bar histories on terminals W in 1..10, H in 1..6 (and 1x1), 1..6 bars with one- to three-line templates and messages whose widths cluster at multiples of W, adds/removes/finishes/drops that push the frame past the height and back; single standalone bars with random multi-line templates on W in {1,2,3,4,5,7} x H in 1..4; every draw current (gaps >= 1 ms, no refresh limiter); oracle: screen = log ++ the leading bar lines whose accumulated wrapped rows fit H, nothing else; plus a sweep of the f64 ceiling of wrapped_height; plus two oracle-only streams judged on the vt100 crate: double-width texts on even widths, and zero-width + double-width characters in non-last frame lines (two/three-line templates, non-last bars of a MultiProgress) with println between draws; single standalone bars carry the oracle verdict into the shard (hist_okb / no_text_cutb cross-check); non-trivial = at least 4 ops; distinct = distinct case text".into();
     let mut r = Rng::new(a.seed);
     let n = if a.thorough { 6000 } else if a.extended { 3000 } else { 500 };
     let mut cases = corpus();
@@ -324,8 +325,35 @@ fn main() {
     // kept rows of finished, dropped bars are checked under both alignments (DESIGN.md D); a loss that
     // the open finding D22 explains (bottom alignment, padded frame, rows of the reaped bar only) is
     // classified 'bottom-alignment-kept-rows-misplaced'
-    run_sys_cases(&mut s, &cases, &|c, _| c.ops.len() >= 4);
+    // single standalone bars carry the oracle's verdict into the shard, where the hypotheses of
+    // C19_erase_exact_partial (hist_okb, no_text_cutb) are evaluated on the same history and cross-checked with it
+    let counts = std::cell::RefCell::new(std::collections::BTreeMap::<String, u64>::new());
+    verif_harness::sysoracle::run_sys_cases_wrapped(&mut s, &cases, &|c, _| c.ops.len() >= 4, true, &|c, coq, class| {
+        let single = c.bars.len() == 1
+            && c.mp == TInit::Hidden
+            && matches!(c.bars[0].target, TInit::Term(_))
+            && c.fail_at.is_empty()
+            && c.fail_from.is_none()
+            && c.ops.iter().all(|(_, o)| o.bar() == Some(0) && !matches!(o, Op::Insert(..) | Op::Remove(_)));
+        if !single {
+            return format!("(C19Sys {coq})");
+        }
+        let v = match class {
+            None => 0,
+            Some("empty-line-after-text-only-draw-swallowed") => 1,
+            Some("height-cut-leaves-cursor-mid-row") => 3,
+            Some(_) => 2,
+        };
+        *counts.borrow_mut().entry(format!("single-bar-oracle-verdict:{}", ["pass", "D28", "other", "D14"][v])).or_insert(0) += 1;
+        format!("(C19Single {coq} {v})")
+    });
+    for (k, n) in counts.into_inner() {
+        s.count_n(&k, n);
+    }
     f64_ceiling_sweep(&mut s, &mut r, if a.thorough { 200_000 } else { 20_000 });
     verif_harness::sysoracle::wide_text_stream(&mut s, &mut r, if a.thorough { 2000 } else { 250 });
+    // oracle-only: zero-width and double-width characters in NON-LAST frame lines (two-line templates, non-last
+    // bars of a MultiProgress) with println between the draws, judged on the vt100 crate
+    unicode_width_stream(&mut s, &mut r, if a.thorough { 2000 } else { 250 });
     s.finish();
 }
